@@ -23,3 +23,17 @@ package importer
 //@ func (Importer).Import
 //@ trusted
 //@ modcomps H_ E_ M G_ C_
+
+// ---- C14: which file an import reads ----------------------------------------------------------------------------
+// The only file names tried are Join(dir, name+ext) for the configured extensions, in order; the first that can be
+// read wins. With a validated name (parser: identifiers separated by '/', so no "..", not absolute) Join keeps the
+// result under dir (assumed property of filepath.Join, as in C13).
+//@ external os.ReadFile
+//@ modifies nothing
+
+//@ func readFileWithExtensions
+//@ props C14
+//@ modifies nothing
+//@ invariant 1: true
+//@ ensures[C14.file.name] result2 ==> exists(k, 0, len(extensions), result1 == uf("join2", string, dir, name + extensions[k]))
+//@ ensures[C14.file.none] !result2 ==> result0 == "" && result1 == ""
